@@ -159,7 +159,7 @@ func init() {
 }
 
 // c11CramExpand is what the standard decompressors answer for the data of a block (the parameter
-// `Expanders` of the model): "e" = an error, "-" = not asked for.
+// `Expanders` of the model): "e" = an error, "n/a" = not asked for ("-" is the empty string).
 func c11CramExpand(method byte, data []byte) string {
 	var r io.Reader
 	switch method {
@@ -178,7 +178,7 @@ func c11CramExpand(method byte, data []byte) string {
 		}
 		r = lz
 	default:
-		return "-"
+		return "n/a"
 	}
 	var out []byte
 	var err error
@@ -463,7 +463,7 @@ func c11CramModelLine(d *Driver, k c11Case, o c11Outcome) (string, bool) {
 		oracle := "-"
 		if in[1] == 0 {
 			content := in[2:]
-			if exp != "-" {
+			if exp != "n/a" {
 				content = nil
 				if exp != "e" {
 					content, _ = hex.DecodeString(exp)
@@ -471,7 +471,7 @@ func c11CramModelLine(d *Driver, k c11Case, o c11Outcome) (string, bool) {
 			}
 			oracle = c11CramHeaderOracle(content)
 		}
-		if exp == "-" {
+		if exp == "n/a" {
 			exp = "e" // the model does not ask for it
 		}
 		d.add("c11.cramvalue %d %d %s %s %s", in[0], in[1], hexs(in[2:]), exp, oracle)
